@@ -91,6 +91,22 @@ Theorem c08_waits_classified : waits_classified wait_protocols lock_waits waits 
 Proof. vm_compute. reflexivity. Qed.
 Print Assumptions c08_waits_classified.
 
+(* lost wake-ups: no cond.Wait of the library has a cancellation waker that Broadcasts without
+   holding a lock, and the waits whose bound rests on wakers (Upstream.Close's ack wait: caller
+   context and close timeout; connStatus.waitUntil: caller context) have that many locked ones *)
+Theorem c08_cond_wakers :
+  forallb (cond_wakers_ok required_wakers) waits = true /\ wakers_table_used required_wakers waits = true.
+Proof. vm_compute. split; reflexivity. Qed.
+Print Assumptions c08_cond_wakers.
+
+(* the check separates the two forms *)
+Example c08_example_wakers :
+  cond_wakers_ok required_wakers (mkWait "iscp.Upstream.waitToSendAllDataPointsAndReceiveAllAck" 1%N "cond-wait" "u.receivedAck" [] ["waker-locked"; "waker-locked"]) = true /\
+  cond_wakers_ok required_wakers (mkWait "iscp.Upstream.waitToSendAllDataPointsAndReceiveAllAck" 1%N "cond-wait" "u.receivedAck" [] ["waker-bare"; "waker-bare"]) = false /\
+  cond_wakers_ok required_wakers (mkWait "iscp.Upstream.waitToSendAllDataPointsAndReceiveAllAck" 1%N "cond-wait" "u.receivedAck" [] ["waker-locked"]) = false /\
+  cond_wakers_ok required_wakers (mkWait "x.f" 1%N "cond-wait" "c" [] ["waker-bare"]) = false.
+Proof. vm_compute. repeat split; reflexivity. Qed.
+
 (* no stale rows in the hand-written table *)
 Theorem c08_wait_table_used : table_used wait_protocols waits = true.
 Proof. vm_compute. reflexivity. Qed.
